@@ -32,7 +32,8 @@ Record cthread := CTh {
   c_pc : cpc;
   c_path : nat;          (* lock path of the current acquisition = (collection, ns) *)
   c_ino : nat;           (* inode of the description opened by the current acquisition *)
-  c_todo : list nat
+  c_fail : bool;         (* fault: open() of the lock file raises OSError (EMFILE, EACCES, ...) for this acquisition *)
+  c_todo : list (nat * bool)
 }.
 
 Record cgst := CG {
@@ -52,11 +53,11 @@ Definition ino_locked_by_other (t i : nat) (h : list (nat * nat)) : bool :=
 Fixpoint hremove (t : nat) (h : list (nat * nat)) : list (nat * nat) :=
   match h with [] => [] | (u, i) :: r => if Nat.eqb u t then hremove t r else (u, i) :: hremove t r end.
 
-Definition cset_pc (th : cthread) (p : cpc) : cthread := CTh p (c_path th) (c_ino th) (c_todo th).
+Definition cset_pc (th : cthread) (p : cpc) : cthread := CTh p (c_path th) (c_ino th) (c_fail th) (c_todo th).
 Definition cnext_cycle (th : cthread) : cthread :=
   match c_todo th with
-  | [] => CTh C_Done (c_path th) (c_ino th) []
-  | k :: r => CTh C_QAcq k (c_ino th) r
+  | [] => CTh C_Done (c_path th) (c_ino th) false []
+  | k :: r => CTh C_QAcq (fst k) (c_ino th) (snd k) r
   end.
 
 Definition ctstep (t : nat) (g : cgst) (th : cthread) : option (cgst * cthread) :=
@@ -68,10 +69,12 @@ Definition ctstep (t : nat) (g : cgst) (th : cthread) : option (cgst * cthread) 
       end
   | C_QRel => Some (CG (c_unlinks g) None (c_paths g) (c_next g) (c_held g), cset_pc th C_Open)
   | C_Open =>
+      if c_fail th then Some (g, cnext_cycle th)     (* OSError propagates: the requester is refused, it never enters *)
+      else
       match plookup (c_path th) (c_paths g) with
-      | Some i => Some (g, CTh C_Flock (c_path th) i (c_todo th))
+      | Some i => Some (g, CTh C_Flock (c_path th) i false (c_todo th))
       | None => Some (CG (c_unlinks g) (c_mutex g) ((c_path th, c_next g) :: c_paths g) (S (c_next g)) (c_held g),
-                      CTh C_Flock (c_path th) (c_next g) (c_todo th))
+                      CTh C_Flock (c_path th) (c_next g) false (c_todo th))
       end
   | C_Flock =>
       if ino_locked_by_other t (c_ino th) (c_held g) then None
@@ -87,9 +90,9 @@ Definition cstep : cstate -> nat -> option cstate := C11Base.step ctstep.
 Definition crun : list nat -> cstate -> option cstate := C11Base.run ctstep.
 Definition cenabled : cstate -> nat -> bool := C11Base.enabled ctstep.
 
-Definition cstart (p : list nat) : cthread :=
-  match p with [] => CTh C_Done 0 0 [] | k :: r => CTh C_QAcq k 0 r end.
-Definition cinit (unlinks : bool) (progs : list (list nat)) : cstate :=
+Definition cstart (p : list (nat * bool)) : cthread :=
+  match p with [] => CTh C_Done 0 0 false [] | k :: r => CTh C_QAcq (fst k) 0 (snd k) r end.
+Definition cinit (unlinks : bool) (progs : list (list (nat * bool))) : cstate :=
   St (CG unlinks None [] 0 []) (map cstart progs).
 Definition creachable (unlinks : bool) (s : cstate) : Prop := exists progs, reach ctstep (cinit unlinks progs) s.
 
@@ -130,7 +133,9 @@ Fixpoint ctrace (sched : list nat) (s : cstate) : list (list Z) :=
   | [] => []
   | t :: r => match cmacro s t with Some s' => cobserve s' :: ctrace r s' | None => [[-9]] end
   end.
+(* harness encoding of a cycle: key number, + 1000 when open() of the lock file fails for that acquisition *)
+Definition cmk_cycle (x : nat) : nat * bool := (Nat.modulo x 1000, Nat.leb 1000 x).
 Definition crun_case (c : list (list nat) * list nat) : list (list Z) :=
-  let s0 := cinit false (fst c) in cobserve s0 :: ctrace (snd c) s0.
+  let s0 := cinit false (map (map cmk_cycle) (fst c)) in cobserve s0 :: ctrace (snd c) s0.
 Definition crun_case_z (c : list (list nat) * (nat * list Uint63.int)) : list Uint63.int :=
   map Uint63.of_Z (enc_trace (crun_case (fst c, decode_sched (fst (snd c)) (map Uint63.to_Z (snd (snd c)))))).
